@@ -1274,7 +1274,11 @@ f_sort_array (void)
     {
     case T_NUMBER:
       {
-        tmp = builtin_sort_array (copy_array (tmp), (int)arg[1].u.number);
+        /* the comparison raises errors (mixed element types, empty sub-arrays): keep the copy on the stack meanwhile */
+        tmp = copy_array (tmp);
+        push_refed_array (tmp);
+        builtin_sort_array (tmp, (int)arg[1].u.number);
+        sp--;
         break;
       }
 
@@ -1296,8 +1300,10 @@ f_sort_array (void)
         process_efun_callback (1, &ftc, F_SORT_ARRAY);
 
         tmp = copy_array (tmp);
+        push_refed_array (tmp);	/* the callback can raise an error */
         quickSort ((char *) tmp->item, tmp->size, sizeof (tmp->item),
                    sort_array_cmp);
+        sp--;
         sort_array_ftc = old_ptr;
         break;
       }
